@@ -119,9 +119,16 @@ def set_cer(cer, inplace=False):
         _cer_var.set(_schema.dump(cer))
 
 
-def set_cer_values(rc=None, fc=None, hints=None, packages=None, inplace=False):
+def set_cer_values(rc=None, fc=None, hints=None, packages=None, inplace=False, hardcoded=False):
+    """hardcoded: the evaluators are the dictionary based ones that evaluator_factory.create_hardcoded_evaluators builds from the content evaluation
+    result (the other public way to evaluate with known outcomes) instead of the ones that read it from the evaluatable data"""
     cer = make_cer(rc, fc, hints, packages)
     set_cer(cer, inplace=inplace)
+    if hardcoded:
+        from ahbicht.content_evaluation.evaluator_factory import create_hardcoded_evaluators
+        use_provider(list(create_hardcoded_evaluators(cer, FMT, FV)))
+    else:
+        use_cer_evaluators()
     return cer
 
 
